@@ -61,8 +61,8 @@ type replayFile struct {
 
 type nativeResult struct {
 	Obs    []string // natively observed values (vsym.Observe), in order
-	Race   bool   // the Go race detector fired during the native run
-	Status string // ok | failed | panic | aborted | error
+	Race   bool     // the Go race detector fired during the native run
+	Status string   // ok | failed | panic | aborted | error
 	Labels []string
 	Msg    string
 	Site   string
@@ -152,6 +152,10 @@ func TestVReplay(t *testing.T) {
 	cmd := exec.Command(binPath, "-test.v", "-test.run", "^TestVReplay$", "-test.timeout", fmt.Sprintf("%ds", int(timeout.Seconds())))
 	cmd.Dir = work
 	cmd.Env = append(os.Environ(), "VSYM_REPLAY_LIST="+listPath, fmt.Sprintf("VSYM_REPEAT=%d", repeat))
+	if race {
+		// threaded harnesses: a deadlocked replay is cut off on its own
+		cmd.Env = append(cmd.Env, "VSYM_HANG_SECS=20")
+	}
 	var out bytes.Buffer
 	cmd.Stdout = &out
 	cmd.Stderr = &out
@@ -161,7 +165,7 @@ func TestVReplay(t *testing.T) {
 	for i := range res {
 		res[i].Status = "error"
 	}
-	re := regexp.MustCompile(`^VSYM-RESULT (\d+) (\S+) (ok|failed|panic|aborted)(?:: (.*))?$`)
+	re := regexp.MustCompile(`^VSYM-RESULT (\d+) (\S+) (ok|failed|panic|aborted|timeout)(?:: (.*))?$`)
 	reObs := regexp.MustCompile(`^VSYM-OBS (\d+) (.*)$`)
 	seen := 0
 	for _, line := range strings.Split(out.String(), "\n") {
@@ -402,8 +406,8 @@ func cmdCheck(args []string) {
 		}
 	}
 
-	// ---- concolic validation of sampled paths ----
-	if !*noNative {
+	// ---- concolic validation of sampled paths (moot once a violation is confirmed) ----
+	if !*noNative && nViol == 0 {
 		for _, hr := range results {
 			ro := hr.out
 			var files []string
